@@ -1498,6 +1498,12 @@ func (is *iterScanner) Next() bool {
 		return false
 	}
 
+	if n := len(iter.meta.columns); len(is.cols) != n {
+		// a following page may describe another number of columns than the
+		// page the scanner was created for
+		is.cols = make([][]byte, n)
+	}
+
 	for i := 0; i < len(is.cols); i++ {
 		col, err := iter.readColumn()
 		if err != nil {
